@@ -33,6 +33,7 @@ try:
         viol = [l for l in r.stdout.splitlines() if l.startswith("VIOLATION")]
         res["checks"][c] = {"exit": r.returncode, "violations_printed": len(viol),
                             "summary": [l for l in r.stdout.splitlines() if l.startswith(c + " [")][-1:],
+                            "stderr_tail": (r.stderr or "")[-600:] if r.returncode not in (0, 1) else "",
                             "first_key": next((l.strip() for l in r.stdout.splitlines() if l.strip().startswith("key:")), "")[:200]}
     with open("/verif/mutants/RESULTS.jsonl", "a") as fh:
         fh.write(json.dumps(res) + "\n")
